@@ -43,3 +43,33 @@ A(M("c13-status-infeasible-only", "C13", C, "if problem.status != pulp.LpStatusO
 A(M("c13-fallback-flat", "C13", C, "            logging.warning(\"POA: problem is infeasible, fallback to FCFS\")\n            return self.fcfs\n", "            logging.warning(\"POA: problem is infeasible, fallback to FCFS\")\n            return self.__make_dot_bracket(regions, [0 for _ in range(len(regions))])\n", "fallback-is-fcfs"))
 A(M("c13-msg-before-none", "C13", C, "        if solver is not None:\n            solver.msg = False\n", "        solver.msg = False\n", "solver-none-guard"))
 A(M("c13-handler-reraise", "C13", C, "                \"POA: failed to solve problem using MILP approach, fallback to FCFS\"\n            )\n            return self.fcfs\n", "                \"POA: failed to solve problem using MILP approach, fallback to FCFS\"\n            )\n            raise\n", "handler-no-raise"))
+
+# ---------------------------------------------------------------- C02
+A(M("c02-drop-order", "C02", C, "terms.append(-1 * var * length * order)", "terms.append(-1 * var * length)", "milp-objective-levelk"))
+A(M("c02-sign", "C02", C, "terms.append(-1 * var * length * order)", "terms.append(1 * var * length * order)", "milp-objective-levelk"))
+A(M("c02-level0-test", "C02", C, "                if order == 0:\n                    terms.append(var * length)", "                if order <= 1:\n                    terms.append(var * length)", "milp-objective-cases"))
+A(M("c02-bound", "C02", C, "max_order = max(map(len, graph.values())) + 1", "max_order = max(map(len, graph.values()))", "milp-bound"))
+A(M("c02-continuous", "C02", C, "pulp.LpVariable(f\"x_{i}_{j}\", 0, 1, pulp.LpInteger)", "pulp.LpVariable(f\"x_{i}_{j}\", 0, 1, pulp.LpContinuous)", "milp-binary"))
+A(M("c02-one-level-le", "C02", C, "problem += pulp.lpSum(region_vars) == 1", "problem += pulp.lpSum(region_vars) <= 1", "milp-one-level"))
+A(M("c02-adj-2", "C02", C, "                        <= 1\n", "                        <= 2\n", "milp-adjacency"))
+A(M("c02-adj-levels", "C02", C, "                for order in range(max_order):\n                    problem += (", "                for order in range(1, max_order):\n                    problem += (", "milp-adjacency"))
+A(M("c02-minimize", "C02", C, "pulp.LpMaximize", "pulp.LpMinimize", "milp-sense"))
+A(M("c02-name-swap", "C02", C, "pulp.LpVariable(f\"x_{i}_{j}\"", "pulp.LpVariable(f\"x_{j}_{i}\"", ["milp-name-format", "milp-readback"]))
+A(M("c02-readback-swap", "C02", C, "                orders[i] = order\n\n        return self.__make_dot_bracket(regions, orders)\n\n    def __make", "                orders[order] = i\n\n        return self.__make_dot_bracket(regions, orders)\n\n    def __make", "milp-readback"))
+A(M("c02-length-first", "C02", C, "length = region_by_var[var][2]", "length = region_by_var[var][0]", ["milp-objective-level0", "milp-objective-levelk"]))
+A(M("c02-graph-oneway", ["C02", "C16"], C, "                graph[i].add(j)\n                graph[j].add(i)\n\n        # return all", "                graph[i].add(j)\n\n        # return all", "conflict-graph"))
+A(M("c02-pairs-short", "C02", C, "for i, j in itertools.combinations(range(len(regions)), 2):\n            ri, rj = regions[i], regions[j]\n            k, l, _ = ri\n            m, n, _ = rj\n\n            # is pseudoknot?\n            if (k < m < l < n) or (m < k < n < l):\n                graph[i].add(j)\n                graph[j].add(i)\n\n        # return all", "for i, j in itertools.combinations(range(len(regions) - 1), 2):\n            ri, rj = regions[i], regions[j]\n            k, l, _ = ri\n            m, n, _ = rj\n\n            # is pseudoknot?\n            if (k < m < l < n) or (m < k < n < l):\n                graph[i].add(j)\n                graph[j].add(i)\n\n        # return all", "conflict-pairs"))
+A(M("c02-bound-silent", "C02", C, "max_order = max(map(len, graph.values())) + 1", "max_order = max(map(len, graph.values())) + 2", kind="silent"))
+A(M("c02-binary-silent", "C02", C, "pulp.LpVariable(f\"x_{i}_{j}\", 0, 1, pulp.LpInteger)", "pulp.LpVariable(f\"x_{i}_{j}\", cat=pulp.LpBinary)", kind="silent"))
+
+# ---------------------------------------------------------------- C16
+A(M("c16-greedy-range", ["C16", "C01"], C, "                    for j in range(i):\n                        if permutation[j] in graph[permutation[i]]:", "                    for j in range(i - 1):\n                        if permutation[j] in graph[permutation[i]]:", "greedy-earlier"))
+A(M("c16-available-small", "C16", C, "available = [True for _ in range(len(component))]", "available = [True for _ in range(len(component) - 1)]", "greedy-available"))
+A(M("c16-perm-k", "C16", C, "itertools.permutations(component)", "itertools.permutations(component, 2)", "greedy-perms"))
+A(M("c16-perm-identity", "C16", C, "itertools.permutations(component)", "[tuple(component)]", "greedy-perms"))
+A(M("c16-zip", "C16", C, "itertools.product(*unique)", "zip(*unique)", "product"))
+A(M("c16-pop-early", ["C16", "C01"], C, "                    if next_vertex is not None:\n                        visited[next_vertex] = True\n                        stack.append(next_vertex)\n                        components[-1].append(next_vertex)\n                    else:\n                        stack.pop()\n", "                    stack.pop()\n                    if next_vertex is not None:\n                        visited[next_vertex] = True\n                        stack.append(next_vertex)\n                        components[-1].append(next_vertex)\n", "components-walk"))
+A(M("c16-default-missing", "C16", C, "orders = {region: 0 for region in range(len(regions))}", "orders = {}", "product-default"))
+A(M("c16-early-exit", "C16", C, "            return [self.fcfs]\n", "            return []\n", "early-exit"))
+A(M("c16-mark-wrong", "C16", C, "available[orders[permutation[j]]] = False", "available[orders[permutation[i]]] = False", "greedy-mark"))
+A(M("c16-bfs-silent", ["C16", "C01"], C, "                while stack:\n                    current = stack[-1]\n                    next_vertex = None\n\n                    for neighbor in graph[current]:\n                        if not visited[neighbor]:\n                            next_vertex = neighbor\n                            break\n\n                    if next_vertex is not None:\n                        visited[next_vertex] = True\n                        stack.append(next_vertex)\n                        components[-1].append(next_vertex)\n                    else:\n                        stack.pop()\n", "                while stack:\n                    current = stack.pop()\n                    for neighbor in graph[current]:\n                        if not visited[neighbor]:\n                            visited[neighbor] = True\n                            stack.append(neighbor)\n                            components[-1].append(neighbor)\n", kind="silent"))
